@@ -69,6 +69,55 @@ def _effects_in(ctx, f, region):
     return out
 
 
+def _cmp_datum(atom):
+    """'(Op(X,Y))' or '!(Op(X,Y))' -> (Op, X, Y) with negation folded into Op."""
+    from prov import _split_top
+    neg = atom.startswith("!")
+    a = atom[1:] if neg else atom
+    m = re.match(r"^\((Eq|Ne|Gt|Lt|Ge|Le)\((.*)\)\)$", a)
+    if not m:
+        return None
+    parts = _split_top(m.group(2))
+    if len(parts) != 2:
+        return None
+    op = m.group(1)
+    if neg:
+        op = {"Eq": "Ne", "Ne": "Eq", "Gt": "Le", "Le": "Gt", "Lt": "Ge", "Ge": "Lt"}[op]
+    return (op, parts[0].strip(), parts[1].strip())
+
+
+def _constval(ctx, x):
+    m = re.match(r"^const:(\d+)$", x)
+    if m:
+        return int(m.group(1))
+    m = re.match(r"^const:(?:\w+::)*(\w+)$", x)
+    if m:
+        for cp, cv in ctx.fx.consts.items():
+            if cp.split("::")[-1] == m.group(1) and isinstance(cv, int):
+                return cv
+    return None
+
+
+def _holds(op, v, k):
+    return {"Eq": v == k, "Ne": v != k, "Gt": v > k, "Lt": v < k, "Ge": v >= k, "Le": v <= k}[op]
+
+
+def _overlaps(ctx, preds):
+    """can one value satisfy every (op, const) predicate of the list (the deviation's own test plus every comparison
+    of the same datum on the path to the other refusal)?  Decided for constants; an unknown operand decides nothing
+    (no report)."""
+    ks = []
+    for (o, c) in preds:
+        k = _constval(ctx, c)
+        if k is None:
+            return False
+        ks.append((o, k))
+    cand = {0, 0xFFFFFFFF}
+    for (_, k) in ks:
+        cand |= {k - 1, k, k + 1}
+    return any(0 <= v <= 0xFFFFFFFF and all(_holds(o, v, k) for (o, k) in ks) for v in cand)
+
+
 def run(ctx):
     res = RuleResult("R-MODE", "strict acceptance implies permissive acceptance with the same meaning: strict-only code only refuses; permissive-only code is a listed normaliser; every documented deviation is refused under is_strict() only")
     tbl = ctx.table("mode")
@@ -166,6 +215,48 @@ def run(ctx):
             else:
                 res.fail(Finding("R-MODE.D", key + "/wrong-kind", "deviation '%s' is refused with kind %s" % (row["id"], kind), f, c.term["span"]))
     res.floor("deviations located", located, ctx.table("floors").get("mode_deviations", 0))
+    # R-MODE.X: nothing else refuses, without asking the mode, on account of the datum a tolerated deviation is about
+    nx = 0
+    for row in tbl.get("deviations", []):
+        f = ctx.fx.fns.get(row["function"])
+        if f is None or row.get("unconditional"):
+            continue
+        g = guards(ctx, f)
+        refs = refusals(ctx, f)
+        own = []
+        data = []
+        for (c, kind) in refs:
+            atoms = g.atoms_at(("t", c.bb))
+            if all(atoms_match(rx, atoms) for rx in row["test"]):
+                own.append(c.bb)
+                for a in atoms:
+                    if re.search(row["test"][0], a) or re.search(row["test"][0], wild(a)):
+                        d = _cmp_datum(a)
+                        # a value read straight from the stream: its descriptor does not identify one datum
+                        if d and d not in data and not re.search(r"param:reader|ReadLeNumber::|read_exact", d[1]):
+                            data.append(d)
+        if not data:
+            continue
+        nx += 1
+        clash = None
+        for (dop, dx, dc) in data:
+            for (c, kind) in refs:
+                if c.bb in own:
+                    continue
+                atoms = g.atoms_at(("t", c.bb))
+                if any(re.search(r"^\(Validation::is_strict\(", a) for a in atoms):
+                    continue
+                on_x = [(a, d) for a, d in ((a, _cmp_datum(a)) for a in atoms) if d and d[1] == dx]
+                if on_x and _overlaps(ctx, [(dop, dc)] + [(d[0], d[2]) for _, d in on_x]):
+                    clash = (c, " and ".join(a for a, _ in on_x))
+                    break
+            if clash:
+                break
+        if clash:
+            res.fail(Finding("R-MODE.X", "R-MODE/deviation/%s/refused-on-another-path" % row["id"], "documented deviation '%s' is tolerated in permissive mode where %s, yet the refusal at line %d tests the same datum (%s) without asking the mode: some files with this deviation are now rejected by a permissive open" % (row["id"], "%s(%s, %s)" % (dop, dx[:50], dc[:30]), clash[0].line, clash[1][:90]), f, clash[0].term["span"]))
+        else:
+            res.ok({"deviation": row["id"], "datum": [d[1][:80] for d in data], "other_refusals_on_datum": 0, "class": "X: only the strict refusal tests this datum"}, nontrivial=True)
+    res.floor("deviation data checked for other refusals", nx, ctx.table("floors").get("mode_x", 0))
     # data that a tolerated deviation discards: nothing may refuse the file on their account first
     nign = 0
     for row in tbl.get("ignored_data", []):
